@@ -7,12 +7,14 @@ import tempfile
 import time
 from pathlib import Path
 
-from .. import detgen, docgen, e2e
-from ..common import REPO
+import os
+
+from .. import detgen, detproj, docgen, e2e
+from ..common import PY, REPO
 from ..keyenc import unkey
 from ..runner import Check
 from ..subproc import child_env, pmap, run_py
-from ..translate import set_sites
+from ..translate import generate_steps, set_sites
 
 CHILD = r'''
 import json, os, random, sys, importlib, functools
@@ -87,6 +89,21 @@ os.chdir(job["cwd"])
 import datamodel_code_generator as d
 from datamodel_code_generator.format import Formatter
 
+_seen_cwd = []
+if job.get("observe_cwd"):
+    # where the formatting stage runs: the working directory when a CodeFormatter is set up and when a formatter child starts
+    import subprocess
+    import datamodel_code_generator.format as _fmt
+    _cf_init, _sp_run = _fmt.CodeFormatter.__init__, subprocess.run
+    def _init(self, *a, **kw):
+        _seen_cwd.append(["CodeFormatter.__init__", os.getcwd()])
+        return _cf_init(self, *a, **kw)
+    def _run(*a, **kw):
+        _seen_cwd.append(["subprocess.run", kw.get("cwd") or os.getcwd()])
+        return _sp_run(*a, **kw)
+    _fmt.CodeFormatter.__init__ = _init
+    _fmt.subprocess.run = _run
+
 def state():
     out = {}
     for mod, cls, attr in job.get("class_state", []):
@@ -124,8 +141,12 @@ for case in job["cases"]:
     target = out / ("pkg" if case["modular"] else "out.py")
     src = Path(case["path"]) if case.get("path") else case["text"]
     kw = dict(case["opts"])
-    if not case.get("default_formatters"):
+    if case.get("formatters") is not None:
+        kw["formatters"] = [Formatter(x) for x in case["formatters"]]
+    elif not case.get("default_formatters"):
         kw["formatters"] = []
+    del _seen_cwd[:]
+    expected_dir = os.path.realpath(str(target if target.is_dir() else target.parent))
     if "enum_field_as_literal" in kw:
         kw["enum_field_as_literal"] = d.LiteralType(kw["enum_field_as_literal"])
     for so in ("field_extra_keys", "field_extra_keys_without_x_prefix", "strict_types"):
@@ -142,6 +163,8 @@ for case in job["cases"]:
                 if p.is_file():
                     files[str(p.relative_to(target))] = p.read_text()
         results[case["id"]] = {"files": files}
+        if job.get("observe_cwd"):
+            results[case["id"]]["format_cwd"] = sorted({(w, "output-dir" if os.path.realpath(c) == expected_dir else ("callers-cwd" if os.path.realpath(c) == os.path.realpath(job["cwd"]) else "elsewhere")) for w, c in _seen_cwd})
     except BaseException as e:
         if isinstance(e, (KeyboardInterrupt, SystemExit)):
             raise
@@ -215,18 +238,38 @@ class Lab:
             p.write_text(text)
         return str(d)
 
-    def run(self, name: str, cases: list[dict], *, seed, cwd: str, listing: str | None = None, class_state: list | None = None) -> dict:
+    def run(self, name: str, cases: list[dict], *, seed, cwd: str, listing: str | None = None, class_state: list | None = None,
+            observe_cwd: bool = False) -> dict:
         self.n += 1
         tag = f"{name}-{self.n}"
         job = {
             "cases": cases, "cwd": cwd, "outroot": str(self.root / "out" / tag), "listing": listing, "class_state": class_state or [],
+            "observe_cwd": observe_cwd,
         }
         jp, rp = self.root / f"job-{tag}.json", self.root / f"res-{tag}.json"
         jp.write_text(json.dumps(job))
-        p = run_py(["-c", CHILD, str(jp), str(rp)], cwd=str(self.root), env=child_env(hashseed=seed), timeout=300)
+        # the formatter executables (ruff) live beside the interpreter; -P: like the installed console script, the child does not
+        # put its working directory on sys.path (a project directory may hold anything)
+        env = child_env({"PATH": os.path.dirname(PY) + os.pathsep + os.environ.get("PATH", "")}, hashseed=seed)
+        p = run_py(["-P", "-c", CHILD, str(jp), str(rp)], cwd=str(self.root), env=env, timeout=300)
         if p.rc != 0 or not rp.is_file():
             return {"crash": f"rc={p.rc} {p.err[-500:]}"}
         return json.loads(rp.read_text())
+
+    def make_project(self, name: str, files: dict, sub: str = "") -> str:
+        """a working directory that is (a sub-directory of) a project holding `files`; never an ancestor of an output directory"""
+        d = self.root / "w" / name
+        d.mkdir(parents=True, exist_ok=True)
+        for rel, text in files.items():
+            p = d / rel
+            if text is None:
+                p.mkdir(parents=True, exist_ok=True)
+            else:
+                p.parent.mkdir(parents=True, exist_ok=True)
+                p.write_text(text)
+        cwd = d / sub if sub else d
+        cwd.mkdir(parents=True, exist_ok=True)
+        return str(cwd)
 
     def run_main(self, calls: list[list[str]], doc: dict) -> list[dict] | dict:
         self.n += 1
@@ -593,6 +636,100 @@ def campaign_listing_corpus(ck: Check, lab: Lab) -> None:
     camp.wall_s = time.time() - t0
 
 
+
+# ---------------------------------------------------------------- the working directory as a PROJECT (formatters on)
+def project_cases(rng, n: int) -> list[dict]:
+    """documents + options whose formatted output reacts to formatter settings and to first-party detection: imports of
+    non-standard modules (custom base class, additional imports, customTypePath), long lines, both kinds of quotes"""
+    cases = []
+    for i in range(n):
+        modular = rng.chance(1, 5)
+        text = json.dumps(detproj.project_document(rng, modular))
+        opts = detproj.project_options(rng)
+        model = rng.choice(e2e.MODEL_KINDS[:3]) if opts.get("base_class") else rng.choice(e2e.MODEL_KINDS)
+        cases.append({"id": f"p{i}", "model": model, "opts": opts, "modular": modular, "formatters": rng.choice(detproj.FORMATTER_SETS),
+                      "kind": "project", "input_file_type": "jsonschema", "text": text, "imports": detproj.imported_packages(opts, text)})
+    return cases
+
+
+def project_verdict(ck: Check, camp, lab: Lab, case: dict, proj: dict, ref: dict, got: dict) -> None:
+    """the same case gives other bytes when started from the project directory: find the one ingredient that does it (each alone,
+    in a fresh process), classify, record"""
+    culprit, files = None, detproj.project_files(proj)
+    singles = list(range(len(proj["ingredients"])))
+    cwds = [lab.make_project(f"min-{case['id']}-{lab.n}-{j}", detproj.project_files(proj, [j]), proj["sub"]) for j in singles]
+    runs = pmap(lambda c: lab.run("projmin", [strip(case)], seed=0, cwd=c, listing="sorted"), cwds)
+    for j, r in zip(singles, runs):
+        if outcome(r.get("results", {}).get(case["id"])) != outcome(ref):
+            culprit, files = proj["ingredients"][j], detproj.project_files(proj, [j])
+            break
+    cls = {"oracle": "differential", "entry": "generate", "factor": "cwd", "input": "project", "formatters_on": bool(case["formatters"]),
+           "input_file_type": case["input_file_type"], "same_basename": False, "mixed_types": False,
+           "cwd_holds": "several" if culprit is None else ("package-of-imported-name" if culprit["pkg"] else "formatter-config")}
+    what = "the project as a whole" if culprit is None else (f"a {culprit['kind']} named {culprit['pkg']}" if culprit["pkg"] else f"{culprit['kind']} ({', '.join(culprit['files'])})")
+    ck.fail(cls, {"kind": "cwd_project", "case": strip(case), "project": {"files": files, "sub": proj["sub"]}},
+            f"formatters {case['formatters']}: started from a directory that holds {what}, the output differs from the run started from an empty directory "
+            f"(same input, options and hash seed, fresh processes): {first_diff(ref or {}, got or {})}",
+            "byte-identical files from every working directory")
+
+
+def campaign_projects(ck: Check, lab: Lab, n_cases: int, n_projects: int) -> None:
+    camp = ck.campaign("differential: same input+options with formatters ON (black / isort / ruff) started from an empty directory vs from project directories holding packages named like imported modules and formatter configuration files (fresh processes) -> byte-identical files")
+    t0 = time.time()
+    rng = ck.rng.fork("projects")
+    cases = project_cases(rng, n_cases)
+    flavours = ["full", "packages", "configs"] + ["mixed"] * max(0, n_projects - 3)
+    projects = [detproj.project(rng, f) for f in flavours[:n_projects]]
+    cwds = [lab.make_project("empty", {})] + [lab.make_project(f"proj{i}", detproj.project_files(pr), pr["sub"]) for i, pr in enumerate(projects)]
+    res = pmap(lambda c: lab.run("proj", [strip(x) for x in cases], seed=0, cwd=c, listing="sorted", observe_cwd=True), cwds)
+    for c, r in zip(cwds, res):
+        if "crash" in r:
+            ck.infra_errors.append(f"project child ({c}) crashed: {r['crash']}")
+    if ck.infra_errors:
+        return
+    where = ck.campaign("Model.Write.cwdTrack (the parse, and with it the formatting stage, runs in the output directory) vs the working directory observed when a CodeFormatter is set up / a formatter child process starts in the real generate()")
+    for pr in projects:
+        camp.hit(f"project:{pr['flavour']}")
+        for ing in pr["ingredients"]:
+            camp.hit(f"cwd-holds:{ing['kind']}")
+        camp.hit("started-from-subdirectory" if pr["sub"] else "started-from-project-root")
+    model_where = "output-dir"   # Props/C08.formatting_directory_independent_of_callers_cwd
+    for case in cases:
+        outs = [r["results"].get(case["id"]) for r in res]
+        keys = [outcome(o) for o in outs]
+        camp.evaluations += len(keys)
+        camp.hit("formatters:" + "+".join(case["formatters"]))
+        camp.hit(f"kind:{case['model']}")
+        for nm in ("base_class", "additional_imports"):
+            if case["opts"].get(nm):
+                camp.hit(f"option:{nm}")
+        if "customTypePath" in case["text"]:
+            camp.hit("document:customTypePath")
+        if keys[0].startswith("files:") and outs[0]["files"]:
+            if any(set(case["imports"]) & {i["pkg"] for i in pr["ingredients"] if i["pkg"]} for pr in projects):
+                camp.distinct.add(case["id"])
+        else:
+            camp.hit("generator-error:" + keys[0][6:40])
+        for o, c in zip(outs, cwds):
+            for w, loc in (o or {}).get("format_cwd", []):
+                where.evaluations += 1
+                where.hit(f"{w}:{loc}")
+                where.distinct.add(f"{w}:{'+'.join(case['formatters'])}")
+                if loc != model_where:
+                    ck.disagree(where, {"case": case["id"], "formatters": case["formatters"], "site": w}, model_where, loc)
+        bad = [i for i, kx in enumerate(keys) if kx != keys[0]]
+        if not bad:
+            if len(camp.samples) < 3 and keys[0].startswith("files:"):
+                camp.samples.append({"case": {k: v for k, v in case.items() if k in ("id", "model", "opts", "formatters", "imports")},
+                                     "projects": [sorted(detproj.project_files(pr)) for pr in projects[:2]], "identical": True})
+            continue
+        if ck.notes.get("project_diagnosed", 0) >= 2:
+            camp.hit("further-mismatch-not-diagnosed")
+            continue
+        ck.notes["project_diagnosed"] = ck.notes.get("project_diagnosed", 0) + 1
+        project_verdict(ck, camp, lab, case, projects[bad[0] - 1], outs[0], outs[bad[0]])
+    camp.wall_s = time.time() - t0
+
 # ---------------------------------------------------------------- the CLI entry point in one interpreter (D18)
 D18_DOC = {"title": "M", "type": "object", "properties": {"fooBar": {"type": "integer"}, "bazQux": {"type": "string"}}}
 BASE_ARGV = ["--input", "s.json", "--input-file-type", "jsonschema", "--disable-timestamp"]
@@ -638,16 +775,29 @@ def campaign_main_history(ck: Check, lab: Lab) -> None:
 def search(ck: Check) -> None:
     """a table obligation broke: name the unjustified sites, then run a larger differential campaign"""
     try:
-        for what in ("sites", "cache", "state", "writes", "returns", "listing"):
+        for what in ("sites", "cache", "state", "writes", "returns", "listing", "cwd"):
             rep = ck.driver.run([f"det.refute {what}"])[0]
             if rep.startswith("ok "):
                 groups = rep[3:].replace("(", "").split(")")
                 ck.notes.setdefault("unjustified_" + what, [[unkey(int(t)) for t in g.split()] for g in groups if g.strip()])
     except Exception:  # noqa: BLE001
         pass
+    try:
+        rep = ck.driver.run(["det.refute chdir"])[0]
+        if rep != "none":
+            ck.notes["formatting_not_in_output_directory"] = rep
+    except Exception:  # noqa: BLE001
+        pass
     lab = Lab()
     try:
-        campaign_differential(ck, lab, 150, 6, [0, 1, 2, 3, 4, 5, "random", 7])
+        # first what the broken obligations point at: a new reader of the working directory / the parse no longer inside
+        # `with chdir(output)` -> many more cases x project directories; then the general differential campaign
+        if any(k in ck.notes for k in ("unjustified_cwd", "formatting_not_in_output_directory")) or ck.disagreements:
+            campaign_projects(ck, lab, 60, 8)
+        if not ck.failures:
+            campaign_differential(ck, lab, 150, 6, [0, 1, 2, 3, 4, 5, "random", 7])
+        if not ck.failures:
+            campaign_projects(ck, lab, 60, 8)
     finally:
         lab.close()
 
@@ -658,6 +808,17 @@ def rerun(ck: Check, inp: dict) -> None:
     try:
         if inp.get("kind") == "main_sequence":
             main_sequence(ck, camp, lab, inp["seq"])
+        elif inp.get("kind") == "cwd_project":
+            c = dict(inp["case"])
+            cwds = [lab.make_project("replay-empty", {}), lab.make_project("replay-project", inp["project"]["files"], inp["project"].get("sub", ""))]
+            res = pmap(lambda w: lab.run("replay", [c], seed=0, cwd=w, listing="sorted"), cwds)
+            keys = [outcome(r.get("results", {}).get(c["id"])) for r in res]
+            camp.evaluations += len(keys)
+            if len(set(keys)) > 1:
+                ck.fail({"oracle": "differential", "entry": "generate", "factor": "cwd", "input": "project", "formatters_on": bool(c.get("formatters")),
+                         "input_file_type": c.get("input_file_type"), "same_basename": False, "mixed_types": False},
+                        inp, "the run started from the project directory differs from the run started from an empty directory: "
+                        + first_diff(res[0]["results"][c["id"]], res[1]["results"][c["id"]]))
         elif inp.get("kind") == "differential":
             c = dict(inp["case"])
             if inp.get("dir_files"):
@@ -689,6 +850,7 @@ def known_findings(ck: Check) -> None:
 def run(ck: Check) -> None:
     quick = ck.tier == "quick"
     ck.translate("SetSites", set_sites.generate())
+    ck.translate("GenerateSteps", generate_steps.generate())
     ck.prove()
     ck.assumptions += [
         "PARTIAL CLAIM: the theorems are about the abstraction (sets as lists up to permutation, a memo table, a stable sort); "
@@ -699,6 +861,10 @@ def run(ck: Check) -> None:
         "tuple (basename, path); the first file of a sorted listing) and tied to the code by the shape recognised in the source "
         "(sorted( without key / key=lambda v: (v.name, v.as_posix())); that Path.rglob returns every entry exactly once and that "
         "str / Path comparison is the total order of the model is trusted",
+        "working directory: that the formatting stage runs inside `with chdir(output)` is a reviewed shape of generate() (kernel-decided on "
+        "Gen/GenerateSteps) plus a review of every reader of the working directory in the source (Gen/SetSites.cwdSites); what black / isort / "
+        "ruff do with the directory they are in is third-party behaviour, observed by the project-directory runs only; with output=None "
+        "(text to stdout, no file written) the formatters see the caller's directory",
         "error messages may contain set reprs (reviewed tag errorMessageOnly): for failing runs only the exception type is compared",
         f"source tree analysed: {REPO}",
     ]
@@ -706,6 +872,7 @@ def run(ck: Check) -> None:
     try:
         campaign_listing_corpus(ck, lab)
         campaign_differential(ck, lab, 60 if quick else 400, 6 if quick else 24, [0, 1, 2, 3] if quick else [0, 1, 2, 3, 4, 5, "random", 7])
+        campaign_projects(ck, lab, 16 if quick else 90, 5 if quick else 12)
         campaign_main_history(ck, lab)
         try:
             rep = ck.driver.run(["det.stale"])[0]
